@@ -224,6 +224,24 @@ def spellings(t, rng, full):
     out.append(('iso', L('str', rng.choice(['uk', 'us']), s_(t.isoformat())), t))
     out.append(('iso-space', L('str', rng.choice(['uk', 'us']), s_(t.isoformat(' '))), t))
     out.append(('yyyymmdd-str', L('str', rng.choice(['uk', 'us']), s_(day.strftime('%Y%m%d'))), day))
+    # year-first text with ANY separator of the quantifier ({-,/,.,blank}; now and then two different ones), month / day padded or not,
+    # with or without a time text (round k3: model arm + theorems `iso_any_sep`; until then the model answered bad-op)
+    for _ in range(6 if full else 2):
+        s1 = rng.choice(SEPS)
+        # two different separators only when neither is the '.': next to another separator a single '.' is a decimal point for dateutil
+        # ('1940 08.03' -> 30 August, '1940-8.03' raises); not an ISO spelling, outside the clause (docs/notes/C04.md, round k3)
+        s2 = s1 if rng.random() < 0.7 or s1 == '.' else rng.choice([x for x in SEPS if x != '.'])
+        fm, fd = rng.choice(['%02d', '%d']), rng.choice(['%02d', '%d'])
+        txt = ('%04d' + s1 + fm + s2 + fd) % (t.year, t.month, t.day)
+        if rng.random() < 0.5:
+            suffix, exp = time_suffix(rng, t)
+        else:
+            suffix, exp = '', day
+        if rng.random() < 0.15:
+            txt = wrap_ws(rng, txt + suffix)
+            suffix = ''
+        out.append(('iso-anysep' + ('-mix' if s1 != s2 else '') + ('-time' if exp is not day else ''),
+                    L('str', rng.choice(['uk', 'us']), s_(txt + suffix)), exp))
     out.append(('dt2str', L('rt', enc(t)), t))
     out.append(('dt2str-day', L('rt', enc(day)), day))
     combos = [(sep, pad) for sep in SEPS for pad in (True, False)]
@@ -373,6 +391,8 @@ def _generate(rng, tier):
                     yield dict(tag='overflow-all', lines=[L('ymd', 'I:%d' % y, 'I:%d' % m, 'I:%d' % d)])
     # ---- impossible dates and texts outside the claim
     for s in ['31.04.2000', '29.02.1900', '30/02/2000', '2/30/2000', '14/13/2002', '13/14/2002', '2000-13-01', '2000-02-30', '20000230', '0/1/2000', '1/0/2000',
+              # year-first texts are never swapped (`iso_any_sep_impossible`): month 13 / 30 Feb with the other separators, unpadded
+              '2000/13/01', '2000.13.01', '2000 13 01', '2000/02/30', '2000.2.30', '2000 2 30', '1900/2/29', '2000/0/1', '2000.1.0', '2000/13/1 10:30',
               # impossible times of day: dateutil raises (hour must be in 0..23, ...), never a shifted instant
               '13/01/2000 25:00:00', '13/01/2000 24:00:00', '2/1/2000 10:61:00', '02.01.2000 10:59:60', '2000-01-13T10:61', '2000-01-13 24:00:00',
               '2000-01-13T23:59:60.000001', '01/13/2000 23:60']:
@@ -525,6 +545,14 @@ def laws(rng, tier, ctx):
             ('law-ymd', L('ymd/ts', enc(tu)), safe(ymd, tu), day),
             ('law-ymd', L('ymd/str', 'uk', s_(tu.isoformat())), safe(ymd, tu.isoformat()), day),
         ]
+        # the ISO clause with the other separators of the quantifier, month / day padded or not (round k3)
+        isep = rng.choice(SEPS)
+        iso_any = ('%04d' + isep + rng.choice(['%02d', '%d']) + isep + rng.choice(['%02d', '%d'])) % (t.year, t.month, t.day)
+        idia = rng.choice(['uk', 'us', 'UK', 'US'])
+        checks.append(('law-iso-anysep', L('str', idia, s_(iso_any)), safe(dt, iso_any, dialect=idia), day))
+        iso_any_t = iso_any + t.strftime(' %H:%M:%S')
+        checks.append(('law-iso-anysep', L('str', idia, s_(iso_any_t)), safe(dt, iso_any_t, dialect=idia), t))
+        checks.append(('law-ymd-iso-anysep', L('ymd/str', idia, s_(iso_any_t)), safe(ymd, iso_any_t, dialect=idia), day))
         sep, pad = rng.choice(SEPS), rng.random() < 0.5
         uks, uss = dialect_str(t, True, sep, pad, True), dialect_str(t, False, sep, pad, True)
         checks.append(('law-uk', L('str', 'uk', s_(uks)), safe(dt, uks), t))
